@@ -383,7 +383,16 @@ class SymInt:
     __ge__ = lambda s, o: s._cmp(o, lambda a, b: a >= b)
 
     def __hash__(self):
-        return hash(self.__index__())
+        # a symbolic integer used as a dict / set key (memo tables): first fork on "equal to a key hashed earlier on this path" - the
+        # collision histories are the interesting ones - and only then fall back to enumerating concrete values
+        c = _c()
+        seen = c.__dict__.setdefault("hashed", [])
+        for pv in seen:
+            if c.fork(self.t == pv):
+                return hash(pv)
+        v = c.pick(self.t)
+        seen.append(v)
+        return hash(v)
 
     def __bool__(self):
         return _c().fork(self.t != 0)
